@@ -20,6 +20,7 @@ KERNELS = {
     "rbf": dict(kernel="rbf", gamma=0.25),
     "poly": dict(kernel="poly", degree=2, gamma=0.25, coef0=1),
     "cosine": dict(kernel="cosine"),
+    "poly0": dict(kernel="poly", degree=2, gamma=0.25, coef0=0),        # homogeneous polynomial: coef0 exactly zero (a falsy value)
     "sigmoid": dict(kernel="sigmoid", gamma=0.02, coef0=0.5),
     # a callable kernel with its own keyword arguments (kernel_params must reach the train AND every test kernel)
     "callable": dict(kernel="callable", kernel_params={"c": 0.2}),
